@@ -115,6 +115,24 @@ def _variant_benign(args):
         shutil.rmtree(d, ignore_errors=True)
 
 
+def _variant_benign_patch(args):
+    pid, sid, want = args
+    patch = os.path.join(VERIF, "selftest", "benign", sid, "patch.diff")
+    d = make_copy()
+    try:
+        r = subprocess.run(["patch", "-p1", "-s", "-f", "-i", patch], cwd=d, capture_output=True, text=True)
+        if r.returncode != 0:
+            return sid, "skipped", "patch does not apply to the current tree"
+        rc, rules, tail = run_check(d, pid)
+        if rc == 1:
+            return sid, "FALSE-ALARM", ",".join(rules)
+        if rc != want:
+            return sid, "changed rc=%d (recorded %d)" % (rc, want), tail[-160:].replace("\n", " ")
+        return sid, "silent" if rc == 0 else "no-verdict", ""
+    finally:
+        shutil.rmtree(d, ignore_errors=True)
+
+
 def run_for(pid, mod, chk):
     if os.environ.get("VCHECK_REPO"):
         return       # never recurse from inside a variant run
@@ -131,17 +149,29 @@ def run_for(pid, mod, chk):
     with ThreadPoolExecutor(max_workers=jobs) as ex:
         res_p = list(ex.map(_variant_patch, [(pid, rel) for rel in patches]))
         res_b = list(ex.map(_variant_benign, [(pid, name, base_rc) for name in BENIGN]))
+        bexp = {}
+        bp = os.path.join(VERIF, "selftest", "benign", "expect.json")
+        if os.path.exists(bp):
+            with open(bp) as f:
+                bexp = json.load(f)
+        # behaviour-preserving refactors written by independent sub-agents: never a violation; the recorded verdict
+        # (0 = silent, 2 = construct not recognised) must be reproduced
+        todo = [(pid, sid, e[pid]) for sid, e in sorted(bexp.items()) if pid in e]
+        res_r = list(ex.map(_variant_benign_patch, todo))
     chk.notes["selftest"] = {
         "breaking_variants": [{"patch": rel, "result": r, "rules": info} for rel, r, info in res_p],
         "benign_twins": [{"rewrite": n, "result": r, "info": info} for n, r, info in res_b],
+        "benign_refactors": {"silent": sum(1 for _, r, _ in res_r if r == "silent"), "no_verdict": sorted(s_ for s_, r, _ in res_r if r == "no-verdict"),
+                             "skipped": sorted(s_ for s_, r, _ in res_r if r == "skipped"), "total": len(res_r)},
         "explanation": "each breaking variant is a patch (revert of a repaired defect or a confirmed seeded change) applied to a scratch copy of the "
                        "current tree, on which this check must report a violation; each benign twin is a semantics-preserving rewrite of the whole "
                        "tree on which the verdict must not change",
     }
     missed = [rel for rel, r, _ in res_p if r.startswith("MISSED")]
-    alarms = [n for n, r, _ in res_b if r.startswith("FALSE")]
+    alarms = [n for n, r, _ in res_b if r.startswith("FALSE")] + ["%s (%s %s)" % (s_, r, i_) for s_, r, i_ in res_r if r.startswith(("FALSE", "changed"))]
     fired = sum(1 for _, r, _ in res_p if r == "fired")
-    print("%s self-test: %d/%d breaking variants detected (%d skipped), %d/%d benign twins silent"
-          % (pid, fired, len(res_p), sum(1 for _, r, _ in res_p if r == "skipped"), len(res_b) - len(alarms), len(res_b)))
+    print("%s self-test: %d/%d breaking variants detected (%d skipped), %d/%d benign twins silent, %d benign refactors: %d silent, %d no verdict"
+          % (pid, fired, len(res_p), sum(1 for _, r, _ in res_p if r == "skipped"), sum(1 for _, r, _ in res_b if r == "silent"), len(res_b),
+             len(res_r), sum(1 for _, r, _ in res_r if r == "silent"), sum(1 for _, r, _ in res_r if r == "no-verdict")))
     if missed or alarms:
         raise AnalysisError("%s self-test failed: missed %s; false alarms on %s" % (pid, missed, alarms))
